@@ -131,6 +131,7 @@ func evalPadwr(args []string) string {
 		return "bad-op"
 	}
 	var out bytes.Buffer
+	total := 0
 	w := padding.NewPKCS7PaddingWriter(&out, bs)
 	if args[1] != "-" {
 		for _, c := range strings.Split(args[1], ",") {
@@ -138,6 +139,7 @@ func evalPadwr(args []string) string {
 			if !ok {
 				return "bad-op"
 			}
+			total += len(b)
 			n, err := w.Write(b)
 			if err != nil || n != len(b) {
 				return "ORACLE-FAIL:write-return"
@@ -146,6 +148,10 @@ func evalPadwr(args []string) string {
 	}
 	if err := w.Final(); err != nil {
 		return "err"
+	}
+	if bs > 0 && total%bs != 0 {
+		// intrinsic oracle: the final block of this stream is a partial block, never a valid pad
+		return "ORACLE-FAIL:misaligned-stream-accepted"
 	}
 	return hx(out.Bytes())
 }
@@ -344,6 +350,8 @@ func genC19(r *rng, tier string, emit func(string)) {
 		emit(fmt.Sprintf("p7stream %s %s %s %s %s", hx(r.block16()), hx(r.block16()), hx(data), slow, slow))
 		emit(fmt.Sprintf("p7rt8 %s %s %s %s %s", hx(r.bytes(24)), hx(r.bytes(8)), hx(data), "-", slow))
 	}
+	// writer: totals that are not a multiple of the block size with a valid-looking tail (c19_padwriter.go)
+	genC19Misaligned(r, tier, emit)
 }
 
 // c19Poison: decryptions that fail (bad final pad, a trailing partial block after more than one buffer-full), run
